@@ -272,10 +272,11 @@ def run(chk):
     p_enqueue_missing(chk)
     p_contributors(chk)
     p_get_contributors(chk)
+    p_handle_new_basepath(chk)
     chk.assumptions += [
         "api.api_request_limit >= 1 (configuration precondition; the property quantifies over 1..50)",
         "list items are abstracted to integer ids; set/list operations on them follow the library contracts",
-        "NOT covered: convergence of the greenlet fan-out under all schedules, sapi continuation merging, image description pages, the HTTP layer",
+        "NOT covered: convergence of the greenlet fan-out under all schedules, sapi continuation merging, the HTTP layer; image description pages: only handle_new_basepath's registration hand-over across its one switch (get_siteinfo_for; _refcall assumed not to switch), for 1..3 registered tuples and one interfering registration",
     ]
 
 
@@ -354,3 +355,99 @@ def p_get_contributors(chk):
         I.oblige("nothing_else_is_listed", all(any(x is nm for nm in reported) for x in stored))
 
     chk.prove("sapi.MwApi.get_contributors", harness, ex, targets=[fn, ga])
+
+
+# ----------------------------------------------------------------------------- image description pages: no registration is lost across a switch
+def _interfere(todo_dict, path, tup, spawned):
+    """what a concurrently running _extract_info_from_image does for a later image-info batch
+    (fetch.py, the `if path in self.imagedescription_todo` block)"""
+    if path in todo_dict:
+        todo_dict[path].append(tup)
+    else:
+        spawned.append(path)
+        todo_dict[path] = [tup]
+
+
+def p_handle_new_basepath(chk):
+    """Fetcher.handle_new_basepath with the greenlet switch inside get_siteinfo_for made explicit: while
+    it is suspended another greenlet registers one more (title, descriptionurl) under the same base
+    path.  Contract derived from C11 (every image's description page reaches the archive): after the
+    call every tuple ever registered under `path` was scheduled by this call, or is still registered
+    with a new handler spawned for it."""
+    from pyvc.values import ClassRef
+    ex = Explorer()
+    mod = source.module(FETCH)
+    fcls = ClassRef(mod.defs["Fetcher"], mod)
+    fn = ex.function(FETCH, "Fetcher.handle_new_basepath")
+    ex.inline.add(FETCH + ":split_blocks")
+    P = "http://x.org/wiki"
+
+    def get_siteinfo_for(I, self, api):
+        G = I.ghost
+        G["yields"] += 1
+        if I.decide(I.fresh("another_batch_answers_during_the_switch", z3.BoolSort())):
+            _interfere(self.fields["imagedescription_todo"], P, ("File:Late.png", P + "/File:Late.png"), G["spawned"])
+            G["late"] = True
+        return PObj("siteinfo", {})
+    ex.methods[("Fetcher", "get_siteinfo_for")] = Model("Fetcher.get_siteinfo_for [yield point]", get_siteinfo_for)
+    ex.methods[("Fetcher", "_get_mwapi_for_path")] = Model("Fetcher._get_mwapi_for_path", lambda I, s, p: PObj("api", {"api_request_limit": 2}))
+    ex.methods[("Fetcher", "_refcall")] = Model("Fetcher._refcall (spawns, does not switch)", lambda I, s, f, *a: I.ghost["calls"].append((getattr(getattr(f, "func", None), "qualname", None), a)))
+    ex.methods[("Fetcher", "fetch_image_page")] = Model("fetch_image_page", lambda I, s, *a: None)
+    ex.methods[("Fetcher", "get_image_edits")] = Model("get_image_edits", lambda I, s, *a: None)
+    ex.constructors["NsHandler"] = lambda I, c, *a, **k: PObj("NsHandler", {})
+    ex.methods[("NsHandler", "get_nsname_by_number")] = Model("NsHandler.get_nsname_by_number", lambda I, s, n: "File")
+
+    def getattr_hook(I, o, name):
+        m = ex.methods.get(("Fetcher", name))
+        return NotImplemented if m is None else __import__("pyvc.values", fromlist=["BoundMethod"]).BoundMethod(o, m)
+    ex.getattr_hooks["Fetcher"] = getattr_hook
+
+    def harness(I):
+        G = I.ghost
+        G.update({"yields": 0, "spawned": [], "late": False, "calls": []})
+        k = I.choose(3, "registered_before_the_call")
+        todo = [(f"File:I{j}.png", f"{P}/File:I{j}.png") for j in range(k + 1)]
+        sched = set()
+        if I.decide(I.fresh("first_title_already_scheduled", z3.BoolSort())):
+            sched.add("-d-File:I0.png")
+        me = PObj(fcls, {"imagedescription_todo": {P: list(todo)}, "scheduled": sched})
+        me.cls_name = "Fetcher"
+        out = ex.run_function(I, fn, [me, P])
+        I.oblige("no_raise", out.returned)
+        registered = list(todo) + ([("File:Late.png", P + "/File:Late.png")] if G["late"] else [])
+        still = me.fields["imagedescription_todo"].get(P, [])
+        for t in registered:
+            handled = ("-d-" + t[0]) in me.fields["scheduled"]
+            pending = t in still and (P in G["spawned"])
+            I.oblige("every_registered_description_page_is_scheduled_or_still_registered_with_a_handler", bool(handled or pending),
+                     meta={"title": t[0]})
+        if G["late"]:
+            I.cover("a_batch_answered_during_the_switch")
+    chk.prove("fetch.Fetcher.handle_new_basepath", harness, ex, targets=[fn], replay=replay_basepath)
+
+
+def replay_basepath(model, obligation):
+    """the real method on a stand-in fetcher whose get_siteinfo_for performs the other greenlet's registration"""
+    import types
+    from mwlib.network import fetch
+    P = "http://x.org/wiki"
+    for k in (1, 2, 3):
+        spawned, calls = [], []
+        fake = types.SimpleNamespace()
+        fake.imagedescription_todo = {P: [(f"File:I{j}.png", f"{P}/File:I{j}.png") for j in range(k)]}
+        fake.scheduled = set()
+        fake._get_mwapi_for_path = lambda p: types.SimpleNamespace(api_request_limit=2)
+
+        def siteinfo(api, fake=fake, spawned=spawned):
+            _interfere(fake.imagedescription_todo, P, ("File:Late.png", P + "/File:Late.png"), spawned)
+            from mwlib.network import siteinfo as si
+            return si.get_siteinfo("en")
+        fake.get_siteinfo_for = siteinfo
+        fake._refcall = lambda f, *a: calls.append(a)
+        fake.fetch_image_page = fake.get_image_edits = lambda *a: None
+        fetch.Fetcher.handle_new_basepath(fake, P)
+        ok = "-d-File:Late.png" in fake.scheduled or (("File:Late.png", P + "/File:Late.png") in fake.imagedescription_todo.get(P, []) and P in spawned)
+        if not ok:
+            return True, {"registered_before": k, "interleaving": "a later image-info batch registers File:Late.png while get_siteinfo_for is suspended",
+                          "result": "File:Late.png is neither scheduled nor registered any more: its description page and contributors never reach the archive"}, "lost_registration"
+    return False, {"cases": 3}, None
